@@ -129,7 +129,7 @@ func checkEscapeDecoder(c *Ctx, p *Prog, dc decoderCopy) {
 			Summaries: map[string]Summary{"fmt.Sprintf": SprintfSummary},
 			AtStart: func(r *Run, fr *frame) {
 				for v := range fr.env {
-					if phi, ok := v.(*ssa.Phi); ok && phi.Comment == "max" {
+					if phi, ok := v.(*ssa.Phi); ok && phiNameFor(fr.fn, phi) == "max" {
 						fr.env[v] = VSym{Name: "MAX"}
 					}
 				}
@@ -267,6 +267,9 @@ func runC13(c *Ctx) {
 					continue
 				}
 				if fa, ok := u.X.(*ssa.FieldAddr); ok && isNamedStruct(fa.X.Type(), "LexCharLit") && fieldVar(fa).Name() == "Lit" {
+					if onlyDiagnosed(u, map[ssa.Value]bool{}) {
+						continue // read only to be printed on the standard error stream
+					}
 					readers = append(readers, p.FnName(fn))
 				}
 			}
@@ -542,4 +545,56 @@ func checkSkipWhitespace(c *Ctx, p *Prog, rule string) {
 		}
 	}
 	c.Ob(rule, "scanner skipWhitespace", bad == 0, fmt.Sprintf("%d characters tried (the constants the code compares with, their neighbours, EOF and other Unicode spaces); %d disagree with: exactly space, tab, line feed and carriage return are skipped, one per round. %s", len(keys), bad, first), p.FnPos(fn))
+}
+
+// onlyDiagnosed: every use of v ends, through conversions and the argument list of the call, in a print to the
+// standard error stream.
+func onlyDiagnosed(v ssa.Value, seen map[ssa.Value]bool) bool {
+	if seen[v] {
+		return true
+	}
+	seen[v] = true
+	refs := v.Referrers()
+	if refs == nil || len(*refs) == 0 {
+		return true
+	}
+	for _, in := range *refs {
+		switch x := in.(type) {
+		case *ssa.MakeInterface:
+			if !onlyDiagnosed(x, seen) {
+				return false
+			}
+		case *ssa.ChangeType:
+			if !onlyDiagnosed(x, seen) {
+				return false
+			}
+		case *ssa.Convert:
+			if !onlyDiagnosed(x, seen) {
+				return false
+			}
+		case *ssa.Store:
+			// into the argument list of a variadic call
+			al := rootAlloc(x.Addr)
+			if al == nil || al.Comment != "varargs" || x.Val != v {
+				return false
+			}
+			if !onlyDiagnosed(al, seen) {
+				return false
+			}
+		case *ssa.IndexAddr:
+			// the slot of the argument list (its uses are the store above)
+		case *ssa.Slice:
+			if !onlyDiagnosed(x, seen) {
+				return false
+			}
+		case *ssa.Call:
+			if !isStderrPrint(&x.Call) {
+				return false
+			}
+		case *ssa.DebugRef:
+		default:
+			return false
+		}
+	}
+	return true
 }
